@@ -1,6 +1,6 @@
 SPECIFICATION TraceSpec
 CONSTANTS
-  Replica = {1, 2, 3, 4, 5}
+  Replica = {1, 2, 3, 4, 5, 6}
   ET = 5
   HT = 1
   PreVote = FALSE
